@@ -20,6 +20,7 @@ structure Pf where
   kind : Char
   item : Nat
   ver : Nat
+  priv : Bool   -- from the private store p1
 
 inductive Cm where
   | tm (c : Commit Nat String String)
@@ -168,7 +169,7 @@ def hVote (cheight round : Int) (zero : Bool) (d : SlotD) (madeFor : Nat) : Opti
     blockEq := if d.kind == 'n' then zero else true
     index := ((d.vidx.getD madeFor : Nat) : Int) }
 
-def parseHdr (rt : Rt) (toks : List String) : Option (String × Hdr) :=
+def parseHdr (rt : Rt) (tracked : Option String) (toks : List String) : Option (String × Hdr) :=
   match toks with
   | name :: ver :: chain :: height :: vh :: nvh :: app :: vals :: commit =>
     match ver.toNat?, height.toInt?, parseVals vals with
@@ -176,7 +177,7 @@ def parseHdr (rt : Rt) (toks : List String) : Option (String × Hdr) :=
       if ver ≥ 4294967296 then none else
       match hashDesc rt vh vals ver, hashDesc rt nvh vals ver with
       | some vhId, some nvhId =>
-        if !(app == "e" || app.startsWith "x" || app.startsWith "r") then none else
+        if !(app == "e" || app.startsWith "x" || app == "r1" || app == "r2" || app == "p1") then none else
         let hash := if vhId == "e" then "e" else s!"H({ver}/{chain}/{height}/{vhId}/{nvhId}/{app})"
         let mk (c : Option Cm) : Hdr := ⟨ver, chain, height, vhId, nvhId, app, hash, vals, c⟩
         match commit with
@@ -187,7 +188,8 @@ def parseHdr (rt : Rt) (toks : List String) : Option (String × Hdr) :=
             if round < -2147483648 || round > 2147483647 then none else
             let bh? : Option (String × Bool) :=
               if bid == "=" then some (hash, false) else if bid == "o" then some ("o", false)
-              else if bid == "z" then some ("e", true) else none
+              else if bid == "z" then some ("e", true)
+              else if bid == "t" then tracked.map (fun bh => (bh, false)) else none
             match bh? with
             | none => none
             | some (bh, zero) =>
@@ -260,6 +262,9 @@ def itemOf (rt : Rt) (j : Nat) : Option (Nat × String × Nat × Bool) :=
   else if j == 9 then some (1, "acc", 53, true)
   else none
 
+/-- items 5 and 6 are also stored in the private store p1 -/
+def inPrivate (j : Nat) : Bool := j == 5 || j == 6
+
 structure DepIn where
   proof : Option Pf
   kp : String
@@ -278,17 +283,19 @@ def parsePf (rt : Rt) (s : String) : Option DepIn :=
       else match src.toList with
         | c :: rest =>
           if c != 'e' && c != 'a' then none else
-          match (String.ofList rest).splitOn "r" with
+          let body := String.ofList rest
+          let priv := (body.splitOn "p").length == 2 && (body.splitOn "r").length == 1
+          match (if priv then body.splitOn "p" else body.splitOn "r") with
           | [j, k] =>
             if src.length < 4 then none else
             match j.toNat?, k.toNat? with
             | some j, some k =>
-              if k < 1 || k > 2 || j > 9 then none else
+              if k < 1 || k > 2 || j > 9 || (priv && (k != 1 || c != 'e')) then none else
               match itemOf rt j with
               | none => none
               | some (since, _, _, _) =>
-                let present := since != 0 && since ≤ k
-                if (c == 'e') != present then none else some (some ⟨c, j, k⟩)
+                let present := if priv then inPrivate j else since != 0 && since ≤ k
+                if (c == 'e') != present then none else some (some ⟨c, j, k, priv⟩)
             | _, _ => none
           | _ => none
         | [] => none
@@ -296,7 +303,7 @@ def parsePf (rt : Rt) (s : String) : Option DepIn :=
     | none => none
     | some proof =>
       let kp? : Option String :=
-        if kp == "=" then proof.map (fun p => s!"k{p.item}")
+        if kp == "=" then proof.map (fun p => if p.priv then s!"pk{p.item}" else s!"k{p.item}")
         else if kp == "-" then some ""
         else (parseItemTok 'k' kp).bind (fun j => (itemOf rt j).map (fun _ => s!"k{j}"))
       let val? : Option (Option String) :=
@@ -312,7 +319,8 @@ def keccakId (s : String) : String := "K(" ++ s ++ ")"
 /-- ideal proof runtime: an existence proof verifies exactly its item, under exactly the root of its version -/
 def proofRt (rt : Rt) : ProofRt String Pf String String where
   verifyValue := fun p root kp value =>
-    p.kind == 'e' && root == s!"r{p.ver}" && kp == s!"k{p.item}" &&
+    p.kind == 'e' && root == (if p.priv then "p1" else s!"r{p.ver}") &&
+      kp == (if p.priv then s!"pk{p.item}" else s!"k{p.item}") &&
       value == (if rt == .okex then keccakId s!"v{p.item}" else s!"v{p.item}")
   verifyAbsence := fun p root path => p.kind == 'a' && root == s!"r{p.ver}" && path == s!"k{p.item}"
   decodeTx := fun v =>
@@ -322,7 +330,7 @@ def proofRt (rt : Rt) : ProofRt String Pf String String where
 
 def okexShape (rt : Rt) (p : Pf) : OkexShape :=
   match itemOf rt p.item with
-  | some (_, store, klen, pre) => ⟨2, klen, pre, store == "evm"⟩
+  | some (_, store, klen, pre) => if p.priv then ⟨2, 53, true, store == "evm"⟩ else ⟨2, klen, pre, store == "evm"⟩
   | none => ⟨2, 0, false, false⟩
 
 def key1IsBor (rt : Rt) (p : Pf) : Bool :=
@@ -339,7 +347,7 @@ def step (family : String) (d : DSt) (toks : List String) : DSt × String :=
   let rt := rtOf family
   match toks with
   | "hdr" :: rest =>
-    match parseHdr rt rest with
+    match parseHdr rt (d.st.info.map (·.blockHash)) rest with
     | some (name, h) => ({ d with hdrs := (name, some h) :: d.hdrs }, "def")
     | none => (d, "bad-op")
   | ["raw", name, hex] =>
